@@ -199,6 +199,22 @@ def render(repo: Path) -> str:
     init = find_def(cls, 'init')
     calls = handle_path_calls(init)
     envs = getenvs(init)
+    ctor_envs = getenvs(find_def(cls, '__init__'))
+    # every other read of the environment in pypyr/config.py (module level, other methods, os.environ[...])
+    inside = {id(n) for fn in (init, find_def(cls, '__init__')) for n in ast.walk(fn)}
+    module_envs = []
+    for n in ast.walk(cfg_tree):
+        if id(n) in inside:
+            continue
+        g = getenv_call(n)
+        if g:
+            module_envs.append(g)
+        elif isinstance(n, ast.Attribute) and n.attr in ('environ', 'environb', 'getenvb'):
+            module_envs.append((ast.unparse(n), None))
+    for fn in (init, find_def(cls, '__init__')):
+        for n in ast.walk(fn):
+            if isinstance(n, ast.Attribute) and n.attr in ('environ', 'environb', 'getenvb'):
+                raise Shape(f'Config.{fn.name} reads the environment through {ast.unparse(n)}: re-read it')
     gpp = [n for n in ast.walk(init) if isinstance(n, ast.Call) and isinstance(n.func, ast.Attribute)
            and n.func.attr == 'get_platform_paths']
     if len(gpp) != 1 or not all(isinstance(a, ast.Constant) and isinstance(a.value, str) for a in gpp[0].args):
@@ -235,6 +251,12 @@ def render(repo: Path) -> str:
         '',
         '/-- The `os.getenv(name, default)` calls of `Config.init`, source order. -/',
         'def initGetenv : List (String × Option String) :=\n  [' + ', '.join(f'({lean_str(n)}, {opt_str(d)})' for n, d in envs) + ']',
+        '',
+        '/-- The `os.getenv(name, default)` calls of `Config.__init__`, source order. -/',
+        'def ctorGetenv : List (String × Option String) :=\n  [' + ', '.join(f'({lean_str(n)}, {opt_str(d)})' for n, d in ctor_envs) + ']',
+        '',
+        '/-- Reads of the environment anywhere else in pypyr/config.py (module level = at import). -/',
+        'def moduleGetenv : List (String × Option String) :=\n  [' + ', '.join(f'({lean_str(n)}, {opt_str(d)})' for n, d in module_envs) + ']',
         '',
         '/-- `get_platform_paths(app_name, config_file_name)` arguments. -/',
         'def platformArgs : List String := [' + ', '.join(lean_str(a) for a in app_args) + ']',
